@@ -172,8 +172,10 @@ func (d *duplexHTTPCall) Read(data []byte) (int, error) {
 	}
 	verifYield("read.body")
 	n, err := d.response.Body.Read(data)
-	if err != nil && !errors.Is(err, io.EOF) {
-		// If the context ended while we were blocked, that's the cause.
+	if err != nil && err != io.EOF && (!errors.Is(err, io.EOF) || d.ctx.Err() != nil) { // nolint:errorlint
+		// If the context ended while we were blocked, that's the cause - whatever
+		// the transport reports, which may be the context's own cause and wrap
+		// anything (io.EOF included). Only a plain io.EOF is the end of the body.
 		err = wrapIfContextDone(d.ctx, err)
 	}
 	return n, wrapIfRSTError(err)
